@@ -19,6 +19,7 @@
   (Σ validators' asset shares = asset share total).
 -/
 import AllianceProofs
+import AllianceProofs.ArithTie
 namespace Alliance
 namespace C03
 open Dec
